@@ -48,17 +48,38 @@ def observationRequestItems (g : Nat → Nat) (gb : Nat → Nat → Nat) (m : Me
   let (r, _) ← fresh.resetOptionsTo g gb kept.toList
   pure (r.mem, r.items)
 
-/-- `Observation.Cancel`: the options of the deregistration request handed to the connection. -/
-def cancelRequestItems (g : Nat → Nat) (gb : Nat → Nat → Nat) (m : Mem) (kept : Options View) :
+/-- `Observation.Cancel`: the options of the deregistration request handed to the connection; `etag` is the ETag of the
+latest notification delivered with one (`SetETag` ignores a length outside 1..8). -/
+def cancelRequestItems (g : Nat → Nat) (gb : Nat → Nat → Nat) (m : Mem) (kept : Options View) (etag : List UInt8) :
     M (Mem × List (Nat × List UInt8)) := do
   let fresh := Msg.new m newMessageOptionsCap
   let (r1, _) ← fresh.resetOptionsTo g gb []
   let (r2, _) ← r1.setOptionUint32 g gb observe 1
   let (p, e) ← Options.pathString r2.mem kept uriPath
+  let r3 ← (match e with
+    | some _ => pure r2
+    | none => do let (r3, _) ← r2.setPath g gb p; pure r3 : M Msg)
+  let r4 ← (if 1 ≤ etag.length ∧ etag.length ≤ 8 then r3.putOptionBytes true g gb eTag etag else pure r3 : M Msg)
+  pure (r4.mem, r4.items)
+
+/-- which of the request builders of `net/client/client.go` -/
+inductive ReqKind | get | post | put | delete | observe
+  deriving DecidableEq, Repr
+
+/-- `Client.New{Get,Post,Put,Delete,Observe}Request(ctx, path, [contentFormat, payload,] opts...)`: a message from the
+pool, `ResetOptionsTo(opts)`, `SetPath(path)`, Content-Format when POST/PUT carry a payload, `SetObserve(0)` for an
+observe request (or, in the other shape read from the AST, an Observe option appended to `opts`).  `none` = refused. -/
+def buildRequest (g : Nat → Nat) (gb : Nat → Nat → Nat) (m : Mem) (k : ReqKind) (path : List UInt8) (cf : Nat)
+    (hasBody : Bool) (inp : List (Nat × List UInt8)) : M (Mem × Option (List (Nat × List UInt8))) := do
+  let fresh := Msg.new m newMessageOptionsCap
+  let inp' := if k = .observe ∧ ¬ newObserveRequestSetsObserve then inp ++ [(observe, [])] else inp
+  let r1 ← fresh.step g gb (.resetTo inp')
+  let (r2, e) ← r1.setPath g gb path
   match e with
-  | some _ => pure (r2.mem, r2.items)
+  | some _ => pure (r2.mem, none)
   | none =>
-    let (r3, _) ← r2.setPath g gb p
-    pure (r3.mem, r3.items)
+    let r3 ← (if hasBody ∧ (k = .post ∨ k = .put) then r2.step g gb (.setUint32 contentFormat cf) else pure r2 : M Msg)
+    let r4 ← (if k = .observe ∧ newObserveRequestSetsObserve then r3.step g gb (.setUint32 observe 0) else pure r3 : M Msg)
+    pure (r4.mem, some r4.items)
 
 end CoapVerif.Model.Options
